@@ -29,7 +29,7 @@ var (
 
 	// Router is shared between httpd, webui and rest packages. It sends
 	// incoming requests to the correct handler function
-	Router = mux.NewRouter()
+	Router = NewRouter()
 
 	rootConfig *config.Root
 	server     *http.Server
@@ -38,6 +38,13 @@ var (
 	// ExpWebSocketConnectsCurrent tracks the number of open WebSockets
 	ExpWebSocketConnectsCurrent = new(expvar.Int)
 )
+
+// NewRouter returns an empty router configured the way Inbucket needs it.  Routes are matched
+// against the encoded path, so that a mailbox name containing an escaped '/' (%2F) stays one path
+// segment; NewContext unescapes the path variables.
+func NewRouter() *mux.Router {
+	return mux.NewRouter().UseEncodedPath()
+}
 
 func init() {
 	m := expvar.NewMap("http")
